@@ -97,12 +97,14 @@ def operator_with_ideal_ucgates(circ, lists, n):
             qs = [wires[c.find_bit(q).index] for q in inst.qubits]
             if op.name == "multiplexer":
                 bl = next(it)
-                if qs != list(range(n)) or 2 * len(bl) != 2 ** n:
+                if qs != sorted(qs) or 2 * len(bl) != 2 ** len(qs):
                     raise RuntimeError("unexpected UCGate placement %r" % (qs,))
-                m = np.zeros((2 ** n, 2 ** n), dtype=complex)
+                m = np.zeros((2 * len(bl), 2 * len(bl)), dtype=complex)
                 for j, x in enumerate(bl):
                     m[2 * j:2 * j + 2, 2 * j:2 * j + 2] = x
-                total = m @ total
+                qc = QuantumCircuit(n)
+                qc.unitary(m, qs)
+                total = Operator(qc).data @ total
             elif op.name in ("ucry", "ucrz", "unitary", "ry", "cz") or op.definition is None:
                 qc = QuantumCircuit(n)
                 qc.append(op, qs)
